@@ -119,6 +119,51 @@ def defining_configuration(ctx):
         raise AnalysisError(f"C05.R11: only {n} evaluations at the defining configuration found")
 
 
+def defining_frames_by_inverse(ctx, rule="C05.R17"):
+    """"A joint is satisfied in the configuration in which it was defined" for every supported subsystem: the body-fixed joint point and
+    frame are B_r_PJ0 = A_IB0^-1 (r_OJ0 - r_OP0), A_KJ0 = A_IB0^-1 A_IJ0, so that r_OP0 + A_IB0 B_r_PJ0 = r_OJ0 and A_IB0 A_KJ0 = A_IJ0
+    hold identically.  R12 rods report A_IB = sum_i N_i Exp(p_i), a weighted sum of rotations that is NOT orthogonal between the nodes, so
+    the transpose is not the inverse there: the pull-back is written with an exact inverse (np.linalg.solve / inv) of the subsystem's A_IB
+    at the defining state, never with `.T`."""
+    rep = ctx.rep
+    n = 0
+    for ci in ctx.model.all_classes():
+        if not ci.rel.startswith("cardillo/constraints/"):
+            continue
+        fn = ci.methods.get("assembler_callback")
+        if fn is None:
+            continue
+        C = f"{ci.rel}:{ci.qual}.assembler_callback"
+        frames = set()   # locals bound to subsystemK.A_IB(...) at the defining state
+        for st in ast.walk(fn):
+            if isinstance(st, ast.Assign) and len(st.targets) == 1 and isinstance(st.targets[0], ast.Name) and isinstance(st.value, ast.Call) \
+                    and isinstance(st.value.func, ast.Attribute) and st.value.func.attr == "A_IB" and (dotted(st.value.func.value) or "").startswith("self.subsystem"):
+                frames.add(st.targets[0].id)
+        if not frames:
+            continue
+        for st in ast.walk(fn):
+            if not (isinstance(st, ast.Assign) and len(st.targets) == 1 and isinstance(st.targets[0], ast.Name)):
+                continue
+            v = st.value
+            tname = st.targets[0].id
+            # transposed frame applied to something
+            tr = [w for w in ast.walk(v) if isinstance(w, ast.Attribute) and w.attr == "T" and isinstance(w.value, ast.Name) and w.value.id in frames]
+            tr += [w for w in ast.walk(v) if isinstance(w, ast.Call) and (dotted(w.func) or "").split(".")[-1] == "transpose" and w.args
+                   and isinstance(w.args[0], ast.Name) and w.args[0].id in frames]
+            inv = [w for w in ast.walk(v) if isinstance(w, ast.Call) and (dotted(w.func) or "").split(".")[-1] in ("solve", "inv", "lstsq", "pinv") and w.args
+                   and isinstance(w.args[0], ast.Name) and w.args[0].id in frames]
+            if tr:
+                n += 1
+                rep.bad(rule, C, st, f"`{tname}` pulls the joint point / frame back with the TRANSPOSE of `{norm_src(tr[0])[:40]}`: for an R12 rod (A_IB = sum of N_i Exp(p_i), not orthogonal "
+                        "between the nodes) that is not the inverse, so r_OP0 + A_IB0 B_r_PJ0 != r_OJ0 and a joint attached at an interior cross-section with an explicit r_OJ0 / A_IJ0 "
+                        "is not satisfied in its defining configuration", f"{ci.rel}:{st.lineno}")
+            elif inv:
+                n += 1
+                rep.ok(rule, C, f"`{tname} = {norm_src(v)[:70]}`: exact inverse of the subsystem's frame")
+    if n < 4:
+        raise AnalysisError(f"{rule}: only {n} pull-backs of joint data with the subsystems' A_IB found in the joints' assembler_callback")
+
+
 def signed_velocity_jacobian(ctx, rule="C05.R14"):
     """W_g is the transpose of d g_dot / d u: replacing in g_dot every velocity (v_J1, v_J2, Omega1, Omega2) by its Jacobian (J_J1, J_J2, J_R1,
     J_R2) gives the columns of W_g TERM BY TERM, WITH SIGN.  Both sides are expanded into signed monomials (K12; locals inlined, sums
@@ -324,6 +369,8 @@ def run(ctx):
     rep.rule("C05.R8", "relative polarity of body-2 vs body-1 terms agrees between the constraint and its derivatives (K9)", 25)
     rep.rule("C05.R9", "all point-protocol calls of one body's joint glue name the same material point (xi, B_r_CP)", 4)
     protocol.point_argument_agreement(ctx, "C05.R9", [("auxiliary_functions", BASE, ctx.repo.get(BASE, "auxiliary_functions"))])
+    rep.rule("C05.R17", "the body-fixed joint point / frame at the defining configuration are pulled back with the exact inverse of the subsystem's A_IB (not its transpose: R12 rods report non-orthogonal A_IB between the nodes)", 4)
+    defining_frames_by_inverse(ctx)
     rep.rule("C05.R14", "projected joints: W_g equals the transpose of d g_dot / d u term by term WITH SIGN (signed monomials, triple products in one orientation)", 2)
     signed_velocity_jacobian(ctx)
     rep.rule("C05.R6", "Leibniz image of the primal's factor monomials equals the derivative routine's monomials (K10)", 18)
@@ -561,4 +608,17 @@ NEUTRAL += [
 MUTANTS += [
     dict(id="c05-r16-seed", canary=True, what="[seeded by sub-agent] the orientation columns of W_g use the UNIT direction n / |n| of the constraint moment while g_dot keeps n", file=BASE,
          old='                n = cross3(A_IJ1[:, a], A_IJ2[:, b])\n                W_g[:, 3 + i] = n @ J\n', new="                n = cross3(A_IJ1[:, a], A_IJ2[:, b])\n                W_g[:, 3 + i] = (n / np.linalg.norm(n)) @ J\n", expect="C05.R16"),
+]
+
+MUTANTS += [
+    dict(id="c05-r17-f57", canary=True, what="finding F57 re-injected: joint point and frame of subsystem 2 pulled back with A_IB20.T", file=BASE,
+         old="            B2_r_P2J0 = np.linalg.solve(A_IB20, self.r_OJ0 - r_OP20)\n            A_K2J0 = np.linalg.solve(A_IB20, self.A_IJ0)\n",
+         new="            B2_r_P2J0 = A_IB20.T @ (self.r_OJ0 - r_OP20)\n            A_K2J0 = A_IB20.T @ self.A_IJ0\n", every=True, expect="C05.R17"),
+]
+NEUTRAL += [
+    dict(id="c05-n-r17", canary=True, what="pull-back written with an explicit inverse matrix (both subsystems, both base classes)", every=True,
+         edits=[(BASE, "            B1_r_P1J0 = np.linalg.solve(A_IB10, self.r_OJ0 - r_OP10)\n            A_K1J0 = np.linalg.solve(A_IB10, self.A_IJ0)\n",
+                 "            A_IB10_inv = np.linalg.inv(A_IB10)\n            B1_r_P1J0 = A_IB10_inv @ (self.r_OJ0 - r_OP10)\n            A_K1J0 = A_IB10_inv @ self.A_IJ0\n"),
+                (BASE, "            B2_r_P2J0 = np.linalg.solve(A_IB20, self.r_OJ0 - r_OP20)\n            A_K2J0 = np.linalg.solve(A_IB20, self.A_IJ0)\n",
+                 "            A_IB20_inv = np.linalg.inv(A_IB20)\n            B2_r_P2J0 = A_IB20_inv @ (self.r_OJ0 - r_OP20)\n            A_K2J0 = A_IB20_inv @ self.A_IJ0\n")]),
 ]
